@@ -177,12 +177,26 @@ func c05R2(c *Ctx) {
 					c.Bad("C05.R2", name+": release error bound", p.Pos(r.Call), fn.Key(), "err = eniMgr.Release(…)", "error discarded")
 					continue
 				}
-				arm := errArm(fn, lhs[0], r.Call.End())
-				term := false
-				if arm != nil && len(arm.Body.List) > 0 {
-					_, term = arm.Body.List[len(arm.Body.List)-1].(*ast.ReturnStmt)
-				}
-				c.Check(term, "C05.R2", name+": a failed release keeps the record", p.Pos(r.Call), fn.Key(), "if err != nil { return … } directly guards the path to deletePodResource", "no returning error arm after the release")
+				// with the release's error non-nil — followed through copies into other error
+				// variables — the delete of the same pod's record is not reachable
+				var errVars []types.Object
+				seenE := map[types.Object]bool{}
+				ast.Inspect(fn.Decl.Body, func(k ast.Node) bool {
+					if id, ok := k.(*ast.Ident); ok {
+						if v, ok := info.ObjectOf(id).(*types.Var); ok && !v.IsField() && !seenE[v] && v.Type().String() == "error" && len(errVars) < 12 {
+							seenE[v] = true
+							errVars = append(errVars, v)
+						}
+					}
+					return true
+				})
+				as, _ := assignedFromCall(fn, r.Call)
+				q2 := NewPathQuery(p, fn, nil)
+				q2.StopBlock = q.StopBlock
+				q2.TrackNils = errVars
+				q2.StartNil = map[types.Object]int{lhs[0]: nilNo}
+				w2 := q2.Escapes(isExactly(as), isExactly(d), nil, nil)
+				c.Check(w2 == nil, "C05.R2", name+": a failed release keeps the record", p.Pos(r.Call), fn.Key(), "with err != nil after eniMgr.Release the delete of the record is not reachable", "path: "+p.describePath(w2))
 			}
 		}
 	}
